@@ -6,6 +6,9 @@ pub struct Amount { pub msat: u64 }
 impl Amount {
     #[verifier::external_body]
     pub fn from_msat(m: u64) -> (r: Amount) ensures r.msat == m { unimplemented!() }
+    // cln_rpc: satoshi constructors multiply by 1000 (wrapping is not modelled: the product must fit)
+    #[verifier::external_body]
+    pub fn from_sat(s: u64) -> (r: Amount) requires s as int * 1000 <= u64::MAX as int, ensures r.msat as int == s as int * 1000 { unimplemented!() }
 }
 pub enum PayStatus { COMPLETE, PENDING, FAILED }
 pub struct PayRequest {
@@ -41,8 +44,9 @@ pub mod rpc {
                 (request.amount_msat is None) == (old(w).inv_amount is Some), // #amount_only_for_amountless_invoices [C03]
                 request.amount_msat is Some ==> request.amount_msat->0.msat == old(w).amount,   // #declared_amount_exactly [C03]
                 request.partial_msat is None,                                 // #no_partial_payment [C03]
+                request.retry_for is Some,                                    // #retry_time_is_bounded [C19]
                 request.maxdelay is Some && request.maxdelay->0 as int <= max0(old(w).min_expiry_read - old(w).height_read - old(w).cltv_delta as int)
-                    && request.maxdelay->0 as int <= old(w).pol_delta as int,  // #maxdelay [C04]
+                    && request.maxdelay->0 as int <= old(w).pol_delta as int,  // #maxdelay [C04,C19]
             ensures
                 rely_env(World { pay_running: true, ..*old(w) }, World { pay_running: true, ..*final(w) }),
                 ds_hash_unchanged(*old(w), *final(w)), final(w).faulted == old(w).faulted, !final(w).pay_running,
